@@ -167,6 +167,14 @@ class World:
         self.lines.append(('rm %d %d' % (i, j), m.split('|')[0], r))
         return m.split('|')[0], r
 
+    def repl(self, i, old, new):
+        p, o, n = self.objs[i], self.objs[old], self.objs[new]
+        (s, e), out = quiet(p.replace_child, o, n)
+        r = 'ok' if s == 'ok' else exc_enum(e, 'repl')
+        m = self._m('repl %d %d %d %d' % (i, old, new, ix(n.name)))
+        self.lines.append(('repl %d %d %d' % (i, old, new), m.split('|')[0], r))
+        return m.split('|')[0], r
+
     def dotx(self, i, key, nid, value=None, inst=None):
         """obj.xml_<x> = value | None | element instance"""
         o = self.objs[i]
@@ -263,6 +271,14 @@ def build_tree(w, rnd, cls, depth, nid, chk=True, valid=True, mixed_chk=False):
     if r != 'ok':
         return None
     T = cls.TYPE
+    if not this_chk and rnd.random() < 0.5:
+        # an unchecked element takes any element as a child, in any number and order
+        for _ in range(rnd.randint(1, 3)):
+            ccls = rnd.choice(ALL)
+            j = build_tree(w, rnd, ccls, 0, nid, chk, valid, False) if depth >= 0 else None
+            if j is not None:
+                w.add(i, j)
+        return i
     if T.__name__ in containers:
         tkey = type_key(T)
         tree = matcher.SPECTREE.get(tkey)
@@ -308,6 +324,16 @@ def doc_case(drv, rnd, cls=None, depth=2, mixed_chk=False, mutate=True, copy=Fal
                 inv = {id(x): k for k, x in w.objs.items()}
                 if id(ch) in inv:
                     w.rm(i, inv[id(ch)])
+            elif r < 0.66 and o.get_children(ordered=False):
+                ch = rnd.choice(o.get_children(ordered=False))
+                inv = {id(x): k for k, x in w.objs.items()}
+                if id(ch) in inv:
+                    j = nid[0]; nid[0] += 1
+                    ncls = type(ch) if rnd.random() < 0.85 else rnd.choice(ALL)
+                    m0, r0 = w.newe(j, ncls, True, pick_value(ncls, rnd, True), pick_attrs(ncls, rnd, True, 0))
+                    if r0 == 'ok' and m0 == 'ok':
+                        w.repl(i, inv[id(ch)], j)
+                        ids[:] = list(w.objs)
             elif r < 0.7:
                 tbl = ATTRS.get(type(o).__name__)
                 if tbl:
@@ -318,22 +344,23 @@ def doc_case(drv, rnd, cls=None, depth=2, mixed_chk=False, mutate=True, copy=Fal
                 key = 'xml_' + cn.replace('-', '_')
                 ccls = BY_NAME.get(cn)
                 q = rnd.random()
-                nid[0] += 1
+                nid[0] += 2
+                fresh1, fresh2 = nid[0] - 1, nid[0] - 2
                 if q < 0.2:
-                    w.dotx(i, key, nid[0], None)
+                    w.dotx(i, key, fresh1, None)
                 elif q < 0.5 and ccls is not None:
-                    j = nid[0]; nid[0] += 1
-                    m0, r0 = w.newe(j, ccls, True, pick_value(ccls, rnd, True), [])
+                    m0, r0 = w.newe(fresh2, ccls, True, pick_value(ccls, rnd, True), [])
                     if r0 == 'ok' and m0 == 'ok':
-                        w.dotx(i, key, nid[0], inst=j)
+                        w.dotx(i, key, fresh1, inst=fresh2)
                 elif q < 0.6:
                     w.getx(i, key)
                 else:
                     v = pick_value(ccls, rnd, rnd.random() < 0.8) if ccls is not None else 1
-                    w.dotx(i, key, nid[0], v)
+                    w.dotx(i, key, fresh1, v)
                 ids[:] = list(w.objs)
             else:
                 w.tostr(i, rnd.random() < 0.2)
+        w.tostr(root)
         w.tostr(root)
         w.attrs(rnd.choice(ids))
     if copy:
